@@ -7,6 +7,7 @@ import (
 	goparser "go/parser"
 	"go/types"
 	"os"
+	"path/filepath"
 	"reflect"
 	"regexp"
 	"strings"
@@ -141,6 +142,66 @@ func EnvStubs(st map[string]StubFn) {
 		f.meth["Name"] = func(r *Run, self *absObj, args []value) value { return self.attrs["path"] }
 		return tuple{f, iface{}}
 	}
+	// A temporary file: created in a directory under a name the run-time chooses (a fresh string,
+	// different from every path the program knows), written through its handle, then renamed,
+	// chmod-ed or removed by name. Every step may fail.
+	st["os.CreateTemp"] = func(r *Run, fr *frame, fn *ssa.Function, a []value) value {
+		r.Effects = append(r.Effects, Effect{Op: "CreateTemp", Args: []value{a[0], a[1]}})
+		err := r.nondetErr("CreateTemp.err")
+		if !err.(iface).isNil() {
+			r.Effects[len(r.Effects)-1].Args = append(r.Effects[len(r.Effects)-1].Args, "")
+			return tuple{(*value)(nil), err}
+		}
+		// a name of the run-time's choosing: a concrete string no path of the program can equal
+		// (it is longer than every bound on symbolic paths and starts with a NUL byte)
+		var name value = fmt.Sprintf("\x00temporary-file-of-the-run-time-%d", r.fresh["tempfile"])
+		r.fresh["tempfile"]++
+		r.Effects[len(r.Effects)-1].Args = append(r.Effects[len(r.Effects)-1].Args, name)
+		f := r.newToken("file", map[string]value{"path": name})
+		write := func(r *Run, self *absObj, args []value) value {
+			out := bytesToStr(args[0])
+			r.Effects = append(r.Effects, Effect{Op: "FileWrite", Args: []value{self.attrs["path"], out}})
+			err := r.nondetErr("FileWrite.err")
+			if !err.(iface).isNil() {
+				return tuple{0, err}
+			}
+			return tuple{lenV(out), iface{}}
+		}
+		f.meth["Write"] = write
+		f.meth["WriteString"] = write
+		f.meth["Close"] = func(r *Run, self *absObj, args []value) value {
+			r.Effects = append(r.Effects, Effect{Op: "FileClose", Args: []value{self.attrs["path"]}})
+			return r.nondetErr("FileClose.err")
+		}
+		f.meth["Name"] = func(r *Run, self *absObj, args []value) value { return self.attrs["path"] }
+		return tuple{f, iface{}}
+	}
+	st["os.Rename"] = func(r *Run, fr *frame, fn *ssa.Function, a []value) value {
+		r.Effects = append(r.Effects, Effect{Op: "Rename", Args: []value{a[0], a[1]}})
+		return r.nondetErr("Rename.err")
+	}
+	st["os.Remove"] = func(r *Run, fr *frame, fn *ssa.Function, a []value) value {
+		r.Effects = append(r.Effects, Effect{Op: "Remove", Args: []value{a[0]}})
+		return r.nondetErr("Remove.err")
+	}
+	st["os.Chmod"] = func(r *Run, fr *frame, fn *ssa.Function, a []value) value {
+		r.Effects = append(r.Effects, Effect{Op: "Chmod", Args: []value{a[0], a[1]}})
+		return r.nondetErr("Chmod.err")
+	}
+	// filepath.Dir / Base of a symbolic path: uninterpreted functions of the path
+	pathFn := func(name string, native func(string) string) StubFn {
+		return func(r *Run, fr *frame, fn *ssa.Function, a []value) value {
+			if s, ok := a[0].(string); ok {
+				return native(s)
+			}
+			if t, ok := a[0].(*Term); ok {
+				return UF(name, SStr, t)
+			}
+			panic(unsupported(name + " of a vector string"))
+		}
+	}
+	st["path/filepath.Dir"] = pathFn("filepath.Dir", filepath.Dir)
+	st["path/filepath.Base"] = pathFn("filepath.Base", filepath.Base)
 	st["os.WriteFile"] = func(r *Run, fr *frame, fn *ssa.Function, a []value) value {
 		r.Effects = append(r.Effects, Effect{Op: "WriteFile", Args: []value{a[0], bytesToStr(a[1]), a[2]}})
 		return r.nondetErr("WriteFile.err")
